@@ -89,6 +89,11 @@ def str_cases():
         for i in sorted({-1, 0, 1, nch - 1, nch, nch + 1}):
             exp = ("val", "str", s[i]) if 0 <= i < nch else Undefined
             yield s, "index", (i,), f"r[ix]", exp
+            if i == nch:
+                # an index of kind bigint is an index like any other; one that does not fit the machine's size type is out of range whatever its low bits are
+                for k in (0, nch - 1, nch, 2 ** 32, 2 ** 64, 2 ** 64 + 1, -2 ** 64, -2 ** 64 + 1):
+                    e = f"B{k}" if k >= 0 else f"(B0 - B{-k})"
+                    yield s, "index-bigint", (k,), f"r[{e} + B0 * bz]", (("val", "str", s[k]) if 0 <= k < nch else Undefined)
             if i >= 0:
                 # the same access with a literal index (the compiler checks it against what it believes the length to be), the receiver
                 # having reached its value in different ways
@@ -259,6 +264,12 @@ def num_cases():
                 yield kind, v, "fpart", (), "r.fpart()", ("val", "float", 0.0 if big else v - math.copysign(float(int(v)), v))
             if kind == "byte":
                 yield kind, v, "to_ascii", (), "r.to_ascii()", (("val", "str", chr(v)) if v < 128 else Undefined)
+    # the non-finite doubles (results of earlier operations; no literal denotes them): no integer kind represents them
+    for v in (math.inf, -math.inf, math.nan):
+        for meth in ("to_int", "to_bigint", "to_byte"):
+            yield "float", v, meth, (), f"r.{meth}()", Undefined
+        yield "float", v, "to_float", (), "r.to_float()", ("val", "float", v)
+        yield "float", v, "abs", (), "r.abs()", ("val", "float", abs(v))
 
 
 def typed_expected(e):
@@ -341,7 +352,7 @@ class C14(Check):
                     return expr, e
         else:
             for k, v, m, a, expr, e in num_cases():
-                if (k, m, a) == (case[1], case[3], case[4]) and (v == case[2] and math.copysign(1, v) == math.copysign(1, case[2])):
+                if (k, m, a) == (case[1], case[3], case[4]) and repr(v) == repr(case[2]):
                     return expr, e
         raise KeyError(case)
 
@@ -411,6 +422,8 @@ class C14(Check):
             args = case[3]
             if case[2] == "index":
                 lines += N.construct("int", args[0], "ix", "zx")
+            if case[2] == "index-bigint":
+                lines.append("bz = B1")
             if case[2] in ("substring", "delete"):
                 lines += N.construct("int", args[0], "ia", "za") + N.construct("int", args[1], "ib", "zb")
             if case[2] == "insert":
